@@ -1,6 +1,7 @@
 import GeomV.C03.Model
 import Mathlib.Analysis.SpecialFunctions.Trigonometric.Basic
 import Mathlib.Tactic.Ring
+import Mathlib.Tactic.FieldSimp
 import Mathlib.Tactic.Linarith
 import Mathlib.Tactic.Positivity
 import Mathlib.Tactic.LinearCombination
@@ -27,6 +28,9 @@ noncomputable instance instRNumReal : RNum ℝ where
   le a b := decide (a ≤ b)
   lt a b := decide (a < b)
   min := min
+  max := max
+  abs := fun a => |a|
+  rescale m := if (2:ℝ)^500 ≤ m ∨ (m ≤ ((2:ℝ)^500)⁻¹ ∧ 0 < m) then some m else none
   sqrt := Real.sqrt
   hypot x y := Real.sqrt (x * x + y * y)
   cos := Real.cos
@@ -48,6 +52,8 @@ noncomputable instance instRNumReal : RNum ℝ where
 @[simp] theorem cos_real (a : ℝ) : RNum.cos a = Real.cos a := rfl
 @[simp] theorem sin_real (a : ℝ) : RNum.sin a = Real.sin a := rfl
 @[simp] theorem pi_real : (RNum.pi : ℝ) = Real.pi := rfl
+theorem rescale_real (m : ℝ) :
+    (RNum.rescale m : Option ℝ) = if (2:ℝ)^500 ≤ m ∨ (m ≤ ((2:ℝ)^500)⁻¹ ∧ 0 < m) then some m else none := rfl
 
 /-- `dist` at `ℝ` is the Euclidean distance -/
 theorem dist_real (u v : Pt ℝ) :
@@ -58,7 +64,72 @@ theorem dist_real (u v : Pt ℝ) :
 theorem dist_nonneg (u v : Pt ℝ) : 0 ≤ dist u v := by
   rw [dist_real]; exact Real.sqrt_nonneg _
 
-/-- `distPointToSegment` at `ℝ`, with the Boolean tests turned into propositions -/
+/-- `dpsCore` (the body below the range guard) at `ℝ`, with the Boolean tests turned into propositions -/
+theorem dpsCore_real (p s e : Pt ℝ) :
+    dpsCore p s e =
+      if (p.x - s.x) * (e.x - s.x) + (p.y - s.y) * (e.y - s.y) ≤ 0 then dist p s
+      else if (e.x - s.x) * (e.x - s.x) + (e.y - s.y) * (e.y - s.y) ≤
+          (p.x - s.x) * (e.x - s.x) + (p.y - s.y) * (e.y - s.y) then dist p e
+      else dist p ⟨s.x + ((p.x - s.x) * (e.x - s.x) + (p.y - s.y) * (e.y - s.y)) /
+                ((e.x - s.x) * (e.x - s.x) + (e.y - s.y) * (e.y - s.y)) * (e.x - s.x),
+              s.y + ((p.x - s.x) * (e.x - s.x) + (p.y - s.y) * (e.y - s.y)) /
+                ((e.x - s.x) * (e.x - s.x) + (e.y - s.y) * (e.y - s.y)) * (e.y - s.y)⟩ := by
+  simp only [dpsCore, dot, psub, le_real, ofNat_real, Nat.cast_zero]
+
+theorem scale_sqrt (k a b : ℝ) (hk : 0 < k) :
+    k * Real.sqrt ((a / k) ^ 2 + (b / k) ^ 2) = Real.sqrt (a ^ 2 + b ^ 2) := by
+  have h : (a / k) ^ 2 + (b / k) ^ 2 = (a ^ 2 + b ^ 2) / k ^ 2 := by
+    field_simp
+  rw [h, Real.sqrt_div (by positivity), Real.sqrt_sq hk.le]
+  field_simp
+
+/-- **the range guard is sound**: translating to the segment start, dividing by any `k > 0`,
+measuring and multiplying by `k` gives the same distance -/
+theorem dpsCore_rescale (p s e : Pt ℝ) (k : ℝ) (hk : 0 < k) :
+    k * dpsCore (⟨(p.x - s.x) / k, (p.y - s.y) / k⟩ : Pt ℝ) ⟨0, 0⟩ ⟨(e.x - s.x) / k, (e.y - s.y) / k⟩
+      = dpsCore p s e := by
+  rw [dpsCore_real, dpsCore_real]
+  have hk2 : 0 < k * k := mul_pos hk hk
+  set wx := p.x - s.x with hwx
+  set wy := p.y - s.y with hwy
+  set vx := e.x - s.x with hvx
+  set vy := e.y - s.y with hvy
+  have e1 : (wx / k - 0) * (vx / k - 0) + (wy / k - 0) * (vy / k - 0) = (wx * vx + wy * vy) / (k * k) := by
+    field_simp; ring
+  have e2 : (vx / k - 0) * (vx / k - 0) + (vy / k - 0) * (vy / k - 0) = (vx * vx + vy * vy) / (k * k) := by
+    field_simp; ring
+  simp only [e1, e2]
+  have c1 : (wx * vx + wy * vy) / (k * k) ≤ 0 ↔ wx * vx + wy * vy ≤ 0 := by
+    rw [div_le_iff₀ hk2, zero_mul]
+  have c2 : (vx * vx + vy * vy) / (k * k) ≤ (wx * vx + wy * vy) / (k * k) ↔ vx * vx + vy * vy ≤ wx * vx + wy * vy := by
+    rw [div_le_div_iff_of_pos_right hk2]
+  simp only [c1, c2]
+  split_ifs with h1 h2
+  · rw [dist_real, dist_real]
+    have := scale_sqrt k wx wy hk
+    simpa using this
+  · rw [dist_real, dist_real]
+    have := scale_sqrt k (wx - vx) (wy - vy) hk
+    have e3 : p.x - e.x = wx - vx := by simp only [hwx, hvx]; ring
+    have e4 : p.y - e.y = wy - vy := by simp only [hwy, hvy]; ring
+    rw [e3, e4, ← this]
+    congr 2
+    field_simp
+  · rw [dist_real, dist_real]
+    set b := (wx * vx + wy * vy) / (vx * vx + vy * vy) with hb
+    have hbb : (wx * vx + wy * vy) / (k * k) / ((vx * vx + vy * vy) / (k * k)) = b := by
+      rw [hb]; field_simp
+    rw [hbb]
+    have := scale_sqrt k (wx - b * vx) (wy - b * vy) hk
+    have e3 : p.x - (s.x + b * vx) = wx - b * vx := by simp only [hwx]; ring
+    have e4 : p.y - (s.y + b * vy) = wy - b * vy := by simp only [hwy]; ring
+    simp only [e3, e4]
+    rw [← this]
+    congr 2
+    field_simp; ring
+
+/-- `distPointToSegment` at `ℝ`, with the Boolean tests turned into propositions (both sides of the
+range guard give this value) -/
 theorem distPointToSegment_real (p s e : Pt ℝ) :
     distPointToSegment p s e =
       if (p.x - s.x) * (e.x - s.x) + (p.y - s.y) * (e.y - s.y) ≤ 0 then dist p s
@@ -68,7 +139,20 @@ theorem distPointToSegment_real (p s e : Pt ℝ) :
                 ((e.x - s.x) * (e.x - s.x) + (e.y - s.y) * (e.y - s.y)) * (e.x - s.x),
               s.y + ((p.x - s.x) * (e.x - s.x) + (p.y - s.y) * (e.y - s.y)) /
                 ((e.x - s.x) * (e.x - s.x) + (e.y - s.y) * (e.y - s.y)) * (e.y - s.y)⟩ := by
-  simp only [distPointToSegment, dot, psub, le_real, ofNat_real, Nat.cast_zero]
+  rw [← dpsCore_real]
+  unfold distPointToSegment
+  simp only [psub]
+  generalize hm : RNum.max (RNum.max (RNum.abs (e.x - s.x)) (RNum.abs (e.y - s.y)))
+    (RNum.max (RNum.abs (p.x - s.x)) (RNum.abs (p.y - s.y))) = m
+  rw [rescale_real]
+  split_ifs with h
+  · have hpos : 0 < m := by
+      rcases h with h | h
+      · exact lt_of_lt_of_le (by positivity) h
+      · exact h.2
+    simp only [ofNat_real, Nat.cast_zero]
+    exact dpsCore_rescale p s e m hpos
+  · rfl
 
 /-! ## the point of a segment closest to `p` -/
 
